@@ -18,6 +18,13 @@ pub enum Step {
     Interrupted,
     /// sticky I/O error
     Error(ErrorKind),
+    /// sticky I/O error of the given kind built in a particular SHAPE: 0 = bare kind (no payload), 2 = payload whose
+    /// `source()` chain holds ANOTHER io::Error of a different kind (a transport wrapper), 3 = raw OS error number
+    /// that maps to the kind (falls back to shape 0 for kinds without one). The kind the subject must report is
+    /// always the outer kind, i.e. `err.kind()` of the error handed to it.
+    ErrorShaped(ErrorKind, u8),
+    /// transient error: returned once, then the script goes on
+    ErrorOnce(ErrorKind),
     /// async: `Poll::Pending`; wake immediately (`wake_by_ref` before returning) or deferred
     /// (waker parked in the monitor, fired by the executor after `poll` returned)
     Pending { deferred: bool },
@@ -134,6 +141,15 @@ impl ScriptSource {
                 Some(Step::Error(k)) => {
                     self.mon.errors.fetch_add(1, SeqCst);
                     return Some(Err(io::Error::new(k, "scripted fault")));
+                }
+                Some(Step::ErrorShaped(k, shape)) => {
+                    self.mon.errors.fetch_add(1, SeqCst);
+                    return Some(Err(shaped_error(k, shape)));
+                }
+                Some(Step::ErrorOnce(k)) => {
+                    self.advance();
+                    self.mon.errors.fetch_add(1, SeqCst);
+                    return Some(Err(io::Error::new(k, "scripted transient fault")));
                 }
                 Some(Step::Pending { deferred }) => {
                     match waker {
@@ -259,6 +275,47 @@ pub fn composition(len: usize, mask: u64) -> Vec<usize> {
 
 pub fn chunks_to_script(chunks: &[usize]) -> Vec<Step> {
     chunks.iter().map(|&n| Step::Chunk(n)).collect()
+}
+
+#[derive(Debug)]
+struct TransportWrapper {
+    cause: io::Error,
+}
+impl std::fmt::Display for TransportWrapper {
+    fn fmt(&self, f: &mut std::fmt::Formatter<'_>) -> std::fmt::Result {
+        write!(f, "transport failed")
+    }
+}
+impl std::error::Error for TransportWrapper {
+    fn source(&self) -> Option<&(dyn std::error::Error + 'static)> {
+        Some(&self.cause)
+    }
+}
+
+pub const ERROR_SHAPES: [u8; 3] = [0, 2, 3];
+
+pub fn shaped_error(k: ErrorKind, shape: u8) -> io::Error {
+    match shape {
+        2 => {
+            let inner = if k == ErrorKind::ConnectionReset { ErrorKind::TimedOut } else { ErrorKind::ConnectionReset };
+            io::Error::new(k, TransportWrapper { cause: io::Error::new(inner, "inner cause") })
+        }
+        3 => {
+            let errno = match k {
+                ErrorKind::ConnectionReset => Some(104),
+                ErrorKind::ConnectionAborted => Some(103),
+                ErrorKind::TimedOut => Some(110),
+                ErrorKind::BrokenPipe => Some(32),
+                ErrorKind::PermissionDenied => Some(13),
+                _ => None,
+            };
+            match errno {
+                Some(e) if io::Error::from_raw_os_error(e).kind() == k => io::Error::from_raw_os_error(e),
+                _ => io::Error::from(k),
+            }
+        }
+        _ => io::Error::from(k),
+    }
 }
 
 pub const FAULT_KINDS: [ErrorKind; 7] = [
